@@ -252,18 +252,31 @@ class C05(Property):
             else:
                 import abtem
 
+                from abtem.distributions import from_values
+
+                tilt = tuple(case["tilt"])
+                td = case.get("tilt_dist")
+                if td == "x":
+                    tilt = (from_values([tilt[0], tilt[0] + 3.0, -2.0]), tilt[1])
+                elif td == "y":
+                    tilt = (tilt[0], from_values([tilt[1], 5.0]))
+                elif td == "both":
+                    tilt = (from_values([tilt[0], 1.5]), from_values([tilt[1], -4.0, 2.0]))
+                elif td == "pairs":
+                    tilt = np.array([[tilt[0], tilt[1]], [3.0, -1.0], [0.0, 2.5]])
                 pw = abtem.PlaneWave(gpts=tuple(case["gpts"]), sampling=tuple(case["sampling"]), energy=case["energy"],
-                                     normalize=case["normalize"], tilt=tuple(case["tilt"])).build(lazy=case["lazy"])
+                                     normalize=case["normalize"], tilt=tilt).build(lazy=case["lazy"])
                 arr = np.asarray(pw.compute().array if case["lazy"] else pw.array)
                 if case["normalize"]:
-                    tot = float(recip_intensity(arr))
-                    if abs(tot - 1) > tol:
-                        ctx.violation("planewave-reciprocal-intensity-not-one", case, dict(total=tot))
+                    tot = np.asarray(recip_intensity(arr)).reshape(-1)
+                    if np.abs(tot - 1).max() > tol:
+                        ctx.violation("planewave-reciprocal-intensity-not-one" + (":tilt-ensemble" if td else ""), case,
+                                      dict(totals=tot[:6].tolist(), shape=list(arr.shape)))
                 else:
                     dev = float(np.abs(np.abs(arr) - 1).max())
                     if dev > tol:
                         ctx.violation("planewave-not-unit-modulus", case, dict(max_dev=dev))
-                if case.get("propagate"):
+                if case.get("propagate") and not td:
                     # a tilted plane wave keeps its modulus through vacuum (also C39)
                     from abtem.multislice import FresnelPropagator
 
@@ -273,7 +286,7 @@ class C05(Property):
                     dev = float(np.abs(np.abs(np.asarray(w2.array)) - ref).max() / ref.max())
                     if dev > (1e-9 if case["precision"] == "float64" else 1e-4):
                         ctx.violation("tilted-planewave-modulus-changes-in-vacuum", case, dict(max_rel_dev=dev))
-                ctx.count(f"planewave:normalize={case['normalize']}:tilt={'zero' if tuple(case['tilt']) == (0.0, 0.0) else 'set'}")
+                ctx.count(f"planewave:normalize={case['normalize']}:tilt={'zero' if tuple(case['tilt']) == (0.0, 0.0) else 'set'}:ensemble={td}")
 
     def conformance(self, ctx: Ctx):
         rng = ctx.rng
@@ -287,7 +300,7 @@ class C05(Property):
                         energy=float(rng.choice([60e3, 100e3, 300e3])), normalize=rng.random() < 0.5,
                         tilt=rng.choice([[0.0, 0.0], [round(rng.uniform(-40, 40), 2), round(rng.uniform(-40, 40), 2)]]),
                         lazy=rng.random() < 0.3, precision=rng.choice(["float64", "float32"]),
-                        propagate=rng.choice([None, 1.0, 7.5]))
+                        propagate=rng.choice([None, 1.0, 7.5]), tilt_dist=rng.choice([None, None, "x", "y", "both", "pairs"]))
             self.oracle(ctx, case)
             ctx.case(case)
 
